@@ -64,15 +64,17 @@ CHECKS = {
              "and the untouched buffer otherwise (these seven setter models are tied to the real setters call by call in "
              "C07's L1 run). The same end-to-end theorems for ada::url's set_username/set_password/set_port (with "
              "url::parse_port)/set_hash/set_search/set_pathname (with url::parse_path and the proved path builder)/set_protocol "
-             "(with url::parse_scheme<true>): the "
+             "(with url::parse_scheme<true>) and, partially, set_host/set_hostname (get_host_delimiter_location, file-host branch "
+             "with the localhost rule, parse_host, port part; for values without a '/', '?' or '\\\\' between '[' and ']'): the "
              "C++ setter on the object holding a record is the object holding the Standard's result when its href fits "
              "the limit and the untouched object otherwise (Model/UrlSetters.lean, replayed on every real setter step "
              "in C04's and, under limits, C09's runs). Both URL types are compared with the Spec after every step of "
              "generated histories (all getters, origin, flags), failed steps are checked to leave every observable "
              "unchanged, and relative references are resolved against the object a history leaves behind.",
         design_ref="DESIGN.md §5 C03",
-        note="partial: seven of the ten setters are modelled statement by statement on both C++ types and proved end to end; "
-             "for set_href, set_host and set_hostname conformance rests on the correspondence with the validated Spec (differential)."),
+        note="partial: seven of the ten setters are modelled statement by statement on both C++ types and proved end to end, "
+             "the host setters on ada::url only and under the bracket side condition; for set_href and for "
+             "url_aggregator's host setters conformance rests on the correspondence with the validated Spec (differential)."),
     "C04": dict(
         technique="Lean 4 proof that the model of ada::url (get_href fast/general path, get_href_size, get_components) "
                   "computes the aggregator's layout for the same content; model tied to the real ada::url on every state; "
